@@ -134,8 +134,8 @@ def dyadic_region(rng, kind=None):
 
 class Check(PropertyCheck):
     id = 'C15'
-    lean_targets = ['RegionsVerif.Props.C15', 'RegionsVerif.Props.C15Box', 'RegionsVerif.Props.C15Mask', 'RegionsVerif.Props.C15Area', 'RegionsVerif.Props.C01Convex', 'RegionsVerif.Bridge.FormulasC15']
-    namespaces = ['RegionsVerif.Props.C15', 'RegionsVerif.Bridge.C15']
+    lean_targets = ['RegionsVerif.Props.C15', 'RegionsVerif.Props.C15Box', 'RegionsVerif.Props.C15Mask', 'RegionsVerif.Props.C15Area', 'RegionsVerif.Props.C01Convex', 'RegionsVerif.Bridge.FormulasC15', 'RegionsVerif.Bridge.RotateGlue']
+    namespaces = ['RegionsVerif.Props.C15', 'RegionsVerif.Bridge.C15', 'RegionsVerif.Bridge.RotateGlue']
     rule = ('rotation: all pixel region classes incl. regular polygons, annuli, lines/points/text and compounds to depth 2 x '
             'rotation centres (near, far) x angles of any magnitude/sign/unit x query points scaled to the shape; '
             'translation: dyadic-parameter regions x integer shifts up to +-1e4 x modes center/subpixels/exact. '
@@ -155,7 +155,11 @@ class Check(PropertyCheck):
         mod = importlib.util.module_from_spec(spec)
         spec.loader.exec_module(mod)
         problems, _ = mod.main(['C15'])
-        return problems
+        # … and Gen/RotateGlue.lean (what every class's rotate() changes) by symbolic interpretation
+        spec = importlib.util.spec_from_file_location('rotateglue', os.path.join(VERIF, 'tools', 'rotateglue.py'))
+        mod2 = importlib.util.module_from_spec(spec)
+        spec.loader.exec_module(mod2)
+        return problems + mod2.main()
 
     def generate(self, rng, tier):
         cases = []
